@@ -344,6 +344,12 @@ class EvolvableCNN(EvolvableModule):
                             :min_0, :min_1
                         ]
 
+        # Buffers of unchanged layers (e.g. batch norm running statistics) are part of what was learned
+        old_net_buffers = dict(old_net.named_buffers())
+        for key, buffer in new_net.named_buffers():
+            if key in old_net_buffers and old_net_buffers[key].size() == buffer.size():
+                buffer.data = old_net_buffers[key].data.clone()
+
         return new_net
 
     def init_weights_gaussian(self, std_coeff: float = 4) -> None:
